@@ -29,7 +29,7 @@ inductive SpecOut where
     switches are only used to NAME a deviation observed on the implementation (harness side). -/
 structure Dev where
   padBytes : Bool := false        -- pad length counted in UTF-8 bytes instead of characters
-  zeroEmpty : Bool := false       -- alphabetic / one-symbol symbolic render 0 as the empty string
+  zeroEmpty : Bool := false       -- a value the symbolic / alphabetic algorithm is not defined for (< 1) goes to decimal, not to the fallback style
   absFallback : Bool := false     -- the fallback style receives |value| after the algorithm failed on a negative value
   extUnknownPlain : Bool := false -- `extends <undefined style>`: rendered as plain decimal, own descriptors dropped
   deriving Repr
@@ -132,7 +132,7 @@ def specAdditive (syms : List (Int × String)) (v : Nat) : Option String :=
     cannot be represented → fallback -/
 def specAlgorithm (dev : Dev) (st : Style) (v : Int) : Option String :=
   let L := st.symbols.length
-  if dev.zeroEmpty ∧ v = 0 ∧ ((st.system = "alphabetic" ∧ L ≥ 2) ∨ (st.system = "symbolic" ∧ L = 1)) then some "" else
+  if dev.padBytes ∧ False then none else
   if st.system = "cyclic" then
     if L = 0 then none else st.symbols[((v - 1) % (L : Int)).toNat]?
   else if st.system = "fixed" then
@@ -157,7 +157,7 @@ def specUsesNegative (st : Style) : Bool :=
 
 def specInRange (st : Style) (v : Int) : Bool :=
   match st.ranges with
-  | some rs => rs.any (fun r => r.1 ≤ v ∧ (v ≤ r.2 ∨ r.2 = maxInt32))   -- `infinite` is stored as MaxInt32
+  | some rs => rs.any (fun r => r.1 ≤ v ∧ v ≤ r.2)   -- `infinite` is stored as math.MinInt / math.MaxInt
   | none =>
     if st.system = "alphabetic" ∨ st.system = "symbolic" then v ≥ 1
     else if st.system = "additive" then v ≥ 0
@@ -190,7 +190,9 @@ def specRender (dev : Dev) (c : Table) : Nat → Int → String → List String 
         match specOne dev st v with
         | .inl s => .text s
         | .inr v =>
-          let fb := if (c.get? st.fallback).isNone || (name :: visited).contains st.fallback then "decimal" else st.fallback
+          let algoUndefined := specInRange st v ∧ (st.system = "symbolic" ∨ st.system = "alphabetic")
+          let fb := if (dev.zeroEmpty ∧ algoUndefined) || (c.get? st.fallback).isNone || (name :: visited).contains st.fallback
+            then "decimal" else st.fallback
           if name = "decimal" then .undefined   -- decimal represents every integer: never reached
           else specRender dev c fuel v fb (if fb = "decimal" then [] else name :: visited)
 
